@@ -52,7 +52,7 @@ def build(tier, seed):
         nvalid += 1
         # a module-level for target is unbound after the loop (known finding KF-C06-FORLEAK): its
         # final global binding is not compared; every read of it inside the loop still is
-        ign = ["x"] if mrole in ("for", "for_leak") else []
+        ign = []
         t = sce.Template(fam.desc(mrole, children), src, [("V", "List[int]")], "len(V) == %d" % ns, observe="trace+globals", budget=400, ignore_globals=ign)
         if not allcfg:
             t.sem_configs = [common.SEM_CONFIGS[(k + seed) % 4]]
